@@ -211,6 +211,13 @@ class Mod(object):
                 f_prompts.extend(blk['prompts'])
                 failed_already = failed_already or bool(blk['fail_line'])
             self.features.add('freeform_groups')
+        if pre in ('', 'u', 'U') and D.chance(1, 5):
+            # a non-raw docstring: a backslash continuation *after* all doctest content joins two physical lines, so the
+            # docstring value has fewer lines than the literal - the lines before it keep their file positions
+            self.add('')
+            self.add('{}A trailing note that is continued \\'.format(ind))
+            self.add('{}on the next physical line.'.format(ind))
+            self.features.add('backslash_continuation_after_doctests')
         self.add('{}{}'.format(ind, q))
         if collect:
             for num, blk in enumerate(g):
